@@ -5,11 +5,17 @@ use std::marker::PhantomPinned;
 use std::panic::{RefUnwindSafe, UnwindSafe};
 use std::pin::Pin;
 use std::ptr::NonNull;
+#[cfg(not(folo_verif_loom))]
 use std::sync::atomic::{AtomicU8, Ordering};
+#[cfg(not(folo_verif_loom))]
 use std::sync::{Arc, Mutex};
 use std::task::{self, Poll, Waker};
 
 use awaiter_set::{Awaiter, AwaiterSet};
+#[cfg(folo_verif_loom)]
+use loom::sync::atomic::{AtomicU8, Ordering};
+#[cfg(folo_verif_loom)]
+use loom::sync::{Arc, Mutex};
 
 use crate::NEVER_POISONED;
 
